@@ -29,7 +29,8 @@ tvars == <<l, bad, nops, done>>
 Binding(e) ==
     LET a == e.arch
         f == e.fault
-    IN /\ f.kind \in {"none", "truncate", "corruptlen", "absent"}
+    IN /\ f.kind \in {"none", "truncate", "corruptlen", "absent", "corruptorig"}
+       /\ f.kind = "corruptorig" => (f.i \in 1..NE(a) /\ f.delta # 0)
        /\ f.kind = "truncate" => (f.n >= 0 /\ f.n < Total(a))
        /\ f.kind = "corruptlen" => (f.i \in 1..NE(a) /\ f.delta # 0 /\ a.entries[f.i].size + f.delta >= -8)
        /\ e.filelen = FileLen(a, f)
